@@ -48,7 +48,7 @@ type c20Case struct {
 	Steps []*c20Step
 }
 
-var c20Behaviours = []string{"ok", "issues=1", "issues=3", "exit=2", "kill", "garbage", "killout"}
+var c20Behaviours = []string{"ok", "issues=1", "issues=3", "exit=2", "kill", "garbage", "killout", "trailing"}
 
 // c20Sanitize is the reference for the placeholder replacement: every "${{" up to the next "}}" is
 // replaced by '_' of the same byte length; an unclosed "${{" is left alone.
@@ -190,10 +190,10 @@ func c20Gen(r *Rand, fixedBehaviours []string, nFiles, maxSteps int, slowMs int)
 				switch {
 				case strings.HasPrefix(st.Behave, "exit="), st.Behave == "kill", st.Behave == "killout":
 					st.Fails = true
-				case st.Behave == "garbage" && st.Tool == "shellcheck":
+				case (st.Behave == "garbage" || st.Behave == "trailing") && st.Tool == "shellcheck":
 					st.Fails = true
 				}
-				if st.Fails || st.Behave == "garbage" {
+				if st.Fails || st.Behave == "garbage" || st.Behave == "trailing" {
 					st.Issues = 0
 				}
 				// script lines
@@ -280,6 +280,7 @@ func c20Gen(r *Rand, fixedBehaviours []string, nFiles, maxSteps int, slowMs int)
 // fake tool log
 
 type c20Inv struct {
+	args       string
 	pid        int
 	mode       string
 	start, end int64
@@ -310,6 +311,7 @@ func c20ParseToolLog(path string) []*c20Inv {
 			if len(f) >= 4 {
 				inv.mode = f[2]
 				inv.start, _ = strconv.ParseInt(f[3], 10, 64)
+				inv.args = strings.Join(f[4:], " ")
 			}
 		case "stdin":
 			if len(f) >= 5 {
@@ -382,7 +384,7 @@ func c20WorkerMain(args []string) {
 
 // c20FaultPattern decodes idx into an assignment of behaviours to k <= 4 invocations.
 func c20FaultPattern(idx int) []string {
-	// k = 1..4 : 7 + 49 + 343 + 2401 = 2800 patterns
+	// k = 1..4 : 8 + 64 + 512 + 4096 = 4680 patterns
 	for k := 1; k <= 4; k++ {
 		n := 1
 		for i := 0; i < k; i++ {
@@ -401,7 +403,7 @@ func c20FaultPattern(idx int) []string {
 	return nil
 }
 
-const c20NumFaultPatterns = 7 + 49 + 343 + 2401
+const c20NumFaultPatterns = 8 + 64 + 512 + 4096
 
 var c20DiagRe = regexp.MustCompile(`^(shellcheck|pyflakes) reported issue in this script`)
 
@@ -556,6 +558,18 @@ func c20RunCase(out *workerOut, r *Rand, fam string, idx int, root, tier string)
 		}
 		if s.Tool != inv.mode {
 			out.viol(idx, "C20:script-passed-to-wrong-tool", fmt.Sprintf("step %d (%s) was passed to %s", s.ID, s.Tool, inv.mode), detail(nil))
+		}
+		if s.Tool == "shellcheck" {
+			// the dialect the tool is told to check must be the script's own effective shell
+			wantSh := "bash"
+			if s.Shell == "sh" || strings.HasPrefix(s.Shell, "sh ") {
+				wantSh = "sh"
+			}
+			if !strings.Contains(" "+inv.args+" ", " --shell "+wantSh+" ") {
+				out.viol(idx, "C20:tool-invoked-for-wrong-shell", fmt.Sprintf("step %d has effective shell %q but shellcheck was started with arguments %q", s.ID, s.Shell, inv.args), detail(map[string]interface{}{"step": s.ID}))
+			} else {
+				out.count("shell_argument_checked", 1)
+			}
 		}
 	}
 	if lerr == nil || !anyFail {
@@ -722,7 +736,7 @@ func c20FailClass(cs *c20Case) string {
 
 func runC20(r *Run) {
 	r.Level = "fault_enumeration"
-	r.Rule = "generated projects of 1-8 workflows whose run: steps get their shell from the step, the job default, the workflow default or the runner (windows => pwsh); each script carries a unique id, placeholders at start/middle/end/adjacent/multi-line/unclosed positions and a behaviour marker for the fake tool (ok, k issues, exit!=0 without output, killed, garbage, slow). Fault enumeration: every assignment of the 7 behaviours (ok, 1 issue, 3 issues, exit!=0 without output, killed, garbage, killed after partial output) to k<=4 tool invocations (2800 patterns; all in thorough, a seeded sample in quick). Oracles: tool log (exact stdin per eligible script, exactly once), diagnostics/fatal error vs. the planned behaviour, hook trace (semaphore and live-process bounds, nothing after return, every run has ended), also under -race and with NumCPU=2 (taskset). Non-trivial = distinct case with >= 1 tool invocation whose outcome (issues / fatal / ok) matched the model."
+	r.Rule = "generated projects of 1-8 workflows whose run: steps get their shell from the step, the job default, the workflow default or the runner (windows => pwsh); each script carries a unique id, placeholders at start/middle/end/adjacent/multi-line/unclosed positions and a behaviour marker for the fake tool (ok, k issues, exit!=0 without output, killed, garbage, slow). Fault enumeration: every assignment of the 8 behaviours (ok, 1 issue, 3 issues, exit!=0 without output, killed, garbage, killed after partial output, well-formed output followed by trailing text) to k<=4 tool invocations (4680 patterns; all in thorough, a seeded sample in quick). Oracles: tool log (exact stdin per eligible script, exactly once), diagnostics/fatal error vs. the planned behaviour, hook trace (semaphore and live-process bounds, nothing after return, every run has ended), also under -race and with NumCPU=2 (taskset). Non-trivial = distinct case with >= 1 tool invocation whose outcome (issues / fatal / ok) matched the model."
 	r.Assume("the fake tool's log undercounts process lifetimes (start logged after exec, end before exit), so the concurrency bound cannot false-alarm")
 	r.Assume("pyflakes output that contains no '<stdin>:' line is ignored by design; only shellcheck must fail on garbage")
 	if r.ReplayOf != nil && r.ReplayOf.Family == "strace-cli" {
